@@ -11,7 +11,7 @@ MANIFEST_ENTRY = {
   "text": "proof (partial: per component, not for a model of the whole runtime). Theorems in coq/Properties/C07.v: for ALL operand values the index/length arithmetic and slicing at every inventoried panic site reachable from execute_current_instruction cannot reach its Panic point -- GarnishNumber operations (shift counts, MIN / -1, zero divisors), number->usize casts, equality/make_list register arithmetic, item getters and index_list/char/byte/symbol list on both stores (negative, fractional, NaN, huge indexes), range length / range access / make_range, ~# range->list, Simple's end_list placement, association probing and slice-of-concatenation window, the iterators, Basic's block-relative addressing, extents (reversed, clamped), association/end_list/conversion slices, pop_frame, binary search, reallocation copy, bytes->i32, the depth bound of the recursive renderers -- each under the part of the store invariant it names; a run of a machine whose step is safe never panics (C07_run_from_step); C07_full_statement (one step of the real runtime from the global store invariant) stays a Definition. The inventory of potential panic sites (unwrap/expect/indexing/slicing/panicking macros/usize arithmetic/casts/std calls that panic/recursion) is regenerated from /repo on every run and every site must be classified in tools/panic_map.json (model+lemma, argument, out of scope as verified against the name-based call graph); the index models are run against both data implementations; a boundary-value search (every instruction x operand type pairs x boundary values, every ~# cast, nested slices/concatenations, 10^5-deep data, grammar-generated programs with boundary literals, hosts absent/declining/accepting) looks for PANIC/HANG/CRASH on the real code.",
   "design_ref": "DESIGN.md section 8 C07"
  },
- "level_note": "Trusted: Coq kernel; Flocq's four standard-library axioms (through Model/Num.v); the scanner tools/sync/panicsites.py (syntactic, not a Rust front end: macro-generated code and trait objects are invisible to it) and the hand-written arguments in tools/panic_map.json; extraction (ExtrOcamlBasic only); the Rust harness. Not modelled: the text rendered by ~# conversions (only index arithmetic and recursion depth), the store invariants themselves (C15/C19 own them; here they are hypotheses), usize addition overflow, allocation failure, native stack depth of non-recursive code. Seven defects were fixed in /repo (see known_findings.json); known finding C07-K1 (listing or rendering a range of 2^31 or more positions exhausts time and memory) is re-confirmed on every run and excluded.",
+ "level_note": "Trusted: Coq kernel; Flocq's four standard-library axioms (through Model/Num.v); the scanner tools/sync/panicsites.py (syntactic, not a Rust front end: macro-generated code and trait objects are invisible to it), its re-matching rule (a site whose line was rewritten inherits the classification of the stale map entry it replaces only when, per file/function/kind, exactly as many sites appeared as disappeared, or a new helper is called by the single function that lost them; an added site never matches; a re-matched `model` site relies on the correspondence and boundary search of the same run) and the hand-written arguments in tools/panic_map.json; extraction (ExtrOcamlBasic only); the Rust harness. Not modelled: the text rendered by ~# conversions (only index arithmetic and recursion depth), the store invariants themselves (C15/C19 own them; here they are hypotheses), usize addition overflow, allocation failure, native stack depth of non-recursive code. Seven defects were fixed in /repo (see known_findings.json); known finding C07-K1 (listing or rendering a range of 2^31 or more positions exhausts time and memory) is re-confirmed on every run and excluded.",
  "technique": "Coq proofs (lia / induction) over executable index models + panic-site inventory tie + differential correspondence + boundary-value search on the Rust implementation"
 }
 
@@ -19,6 +19,10 @@ TRUSTED = vplib.BASE_TRUSTED + [
     "axioms (Print Assumptions): the four standard-library axioms Flocq's real-number development depends on (through Model/Num.v)",
     "tools/sync/panicsites.py: a syntactic scanner (unwrap/expect/indexing/slicing/macros/usize arithmetic/casts/std calls/recursion); what it cannot see (macro expansions, panics inside std other than the listed calls) is covered by the boundary search only",
     "tools/panic_map.json: the written arguments of the sites classified 'argument'",
+    "re-matching (tools/sync/panicsites.py rematch): exact keys are the primary tie; a rewritten line inherits the classification of the stale entry it replaces "
+    "only when per file/function/kind exactly as many sites appeared as disappeared (paired in source order), or when a function with no map entry is called by "
+    "the single function of the same file that lost at least as many equally classified sites of that kind; re-matched sites are listed in Gen/PanicSites.v "
+    "(rematched_sites), in the evidence and as NOTE lines; for class `model` the inherited theorem is about the model, so the claim rests on this run's correspondence and boundary search",
     "store invariants (block layout, runs inside the data cursor, frame cells preceded by jump points, Char/Byte cells after CharList/ByteList headers) are hypotheses of the Basic theorems; C15/C19 establish them",
 ]
 PROOF_DIRS = ["Proofs/C07"]
@@ -66,6 +70,15 @@ def klass(result):
     if result.startswith("REJECT"):
         return result if result.endswith(":panic") else "REJECT"
     return result.split(":")[0].split(" ")[0]
+
+
+REMATCH_NOTE = (
+    "exact keys (file :: function :: kind :: normalised line) are the primary tie; a site whose line was rewritten inherits the "
+    "classification of the stale entry it replaces only when, per file/function/kind, exactly as many sites appeared as disappeared "
+    "(or a new helper is called by the one function of the file that lost at least as many sites of that kind, all classified alike); "
+    "an ADDED site always stays unmapped.  For a re-matched site of class `model` the inherited theorem speaks about "
+    "Model/RuntimeIndex.v, so it is only as good as the model/implementation correspondence and the boundary search, which re-check "
+    "the current code on every run and must both have run for the re-match to be accepted")
 
 
 # ------------------------------------------------------------- inventory tie
@@ -124,7 +137,12 @@ def check_inventory(v, sy):
                 hits += len(re.findall(r"(?<!fn )\b%s\s*\(" % re.escape(name), src))
             if hits:
                 v.tie_failure("panic_map.json says %s is never called, but %d call(s) exist in the runtime path" % (name, hits))
-    stale = sorted(k for k in pmap if k not in present)
+    rematched = inv.get("rematched", [])
+    inherited = {r["old_key"] for r in rematched}
+    for r in rematched:
+        if r["class"] == "model":
+            lemmas[r.get("lemma") or ""] += 1
+    stale = sorted(k for k in pmap if k not in present and k not in inherited)
     info = {
         "sites_inventoried": len(sites),
         "sites_by_kind": inv.get("by_kind", {}),
@@ -137,6 +155,8 @@ def check_inventory(v, sy):
         "unmapped": [s["key"] for s in unmapped],
         "lemmas_cited": dict(lemmas),
         "stale_map_entries": len(stale),
+        "rematched_sites": [{k: r[k] for k in ("id", "class", "lemma", "rule", "file", "function", "kind", "old_text", "new_text")} for r in rematched],
+        "rematched_note": REMATCH_NOTE,
         "files_scanned": len(inv.get("files", [])),
     }
     if stale:
@@ -333,6 +353,16 @@ def run(tier, seed):
             except OSError:
                 pass
     phase("direct search")
+    rem = inv_info.get("rematched_sites", [])
+    if rem:
+        ran = bool(profiles) and okm and corr["compared"] > 0 and sum(stats.values()) > 0
+        if any(r["class"] == "model" for r in rem) and not ran:
+            v.tie_failure("re-matched panic sites of class `model` need the correspondence and the boundary search of this run, which did not run: "
+                          + "; ".join("%s :: %s" % (r["function"], r["new_text"][:60]) for r in rem if r["class"] == "model")[:400])
+        for r in rem[:12]:
+            print("NOTE property=%s re-matched panic site %d (%s, %s) in %s :: %s: `%s` -> `%s`" % (
+                PID, r["id"], r["class"], r["rule"], r["file"], r["function"], r["old_text"][:70], r["new_text"][:70]), flush=True)
+        v.notes.append("%d panic site(s) re-matched to stale map entries (rewritten lines, nothing added): ids %s" % (len(rem), sorted(r["id"] for r in rem)))
     # 6. decide
     seen_msgs = set()
     for (c, result, detail, profile) in probe_hits:
